@@ -355,6 +355,9 @@ func (st *State) sentinel(name, sort string) Term {
 		if sort == SortIface {
 			st.emit(fmt.Sprintf("(assert (not (= %s (mk-iface 0 0))))", sym))
 			st.emit(fmt.Sprintf("(assert (isold (i.val %s)))", sym))
+			if strings.HasPrefix(name, repoPrefix) {
+				st.emit(fmt.Sprintf("(assert (not (liberr %s)))", sym))
+			}
 			st.emit(fmt.Sprintf("(assert (forall ((t Iface)) (! (= (wraps %s t) (= t %s)) :pattern ((wraps %s t)))))", sym, sym, sym))
 			for _, o := range st.globals {
 				st.emit(fmt.Sprintf("(assert (not (= %s %s)))", sym, o))
